@@ -1127,7 +1127,9 @@ def _simplify_function_min(call: HplFunctionCall) -> HplExpression:
 def _obviously_different(a: HplExpression, b: HplExpression) -> bool:
     # assume arguments have been simplified
     if _obvious_negatives(a, b):
-        return True
+        # p and (not p) always differ; x and (-x) are equal when x is zero
+        neg = a if isinstance(a, HplUnaryOperator) and a.operand == b else b
+        return neg.operator.is_not
     if isinstance(a, HplBinaryOperator):
         op: BinaryOperatorDefinition = a.operator
         if isinstance(a.operand1, HplLiteral):
@@ -1136,21 +1138,8 @@ def _obviously_different(a: HplExpression, b: HplExpression) -> bool:
             if a.operand1 == b and isinstance(a.operand2, HplLiteral):
                 assert a.operand2.value != 0  # due to simplification
                 return True
-        if op.is_times:
-            if a.operand1 == b and isinstance(a.operand2, HplLiteral):
-                assert a.operand2.value != 0  # due to simplification
-                assert a.operand2.value != 1  # due to simplification
-                return True
-        if op.is_division:
-            if a.operand1 == b and isinstance(a.operand2, HplLiteral):
-                assert a.operand2.value != 0  # due to simplification
-                assert a.operand2.value != 1  # due to simplification
-                return True
-        if op.is_power:
-            if a.operand1 == b and isinstance(a.operand2, HplLiteral):
-                assert a.operand2.value != 0  # due to simplification
-                assert a.operand2.value != 1  # due to simplification
-                return True
+        # (x * c), (x / c) and (x ** c) are not obviously different from x:
+        # they are equal, e.g., when x is zero (or one, for powers)
     return False
 
 
